@@ -5,6 +5,9 @@ Imports the executable model only (no Mathlib).
 import MPilot.Driver.Codec
 import MPilot.Model.EemsHeap
 import MPilot.Driver.ProgCodec
+import MPilot.Model.Grammar
+import MPilot.Model.Serialize
+import MPilot.Model.Eems2
 
 open MPilot MPilot.Codec
 
@@ -129,12 +132,94 @@ def handleProg (toks : List String) : String :=
             " ".intercalate (st.memo.map fun (k, v) => hex k ++ "=" ++ hex v))
   res.getD "bad-prog"
 
+mutual
+  partial def showEVal : EVal → String
+    | .int n => s!"i:{n}"
+    | .float q => s!"f:{showRat q}"
+    | .str s => "s:" ++ hex s
+    | .list xs => "l[" ++ ",".intercalate (xs.map showENode) ++ "]"
+    | .dict kv => "d{" ++ ",".intercalate (kv.map fun (k, v) => hex k ++ "=" ++ showENode v) ++ "}"
+  partial def showENode : ENode → String
+    | .mk v l => s!"e({l},{showEVal v})"
+end
+
+def showCNode (c : CNode) : String :=
+  let rn := match c.resultName with | some r => hex r | none => "~"
+  s!"cmd({rn},{hex c.command},{c.line},[" ++ ",".intercalate (c.args.map fun a => s!"arg({hex a.name},{a.line},{showENode a.value})") ++ "])"
+
+/-- `parse <hex source>` -/
+def handleParse (toks : List String) : String :=
+  match toks with
+  | [h] =>
+      match unhex h with
+      | none => "bad-parse"
+      | some src =>
+        match parse src with
+        | .ok p => s!"ok v{p.version} " ++ " ".intercalate (p.commands.map showCNode)
+        | .error .syntax => "syntax"
+        | .error .outside => "outside"
+  | _ => "bad-parse"
+
+/-- `ser <env> <ndecls> decl* <nnodes> node*`: load the commands (API order) and print `Program.to_string()` -/
+def handleSer (toks : List String) : String :=
+  let res : Option String := do
+    let ((wd, paths), r) ← pEnv toks
+    let (nd, r) ← pNat r
+    let (decls, r) ← pMany pDecl nd r
+    let (nn, r) ← pNat r
+    let (nodes, _) ← pMany pNode nn r
+    let lib := fun (k : String) => decls.find? (·.name == k)
+    let p0 : Program := { cmds := [], workingDir := wd, exists_ := fun q => paths.contains q }
+    match fromNodes lib p0 nodes with
+    | .error e => pure ("load " ++ showPErr e)
+    | .ok p =>
+      match serializeProgram p with
+      | some t => pure ("ok " ++ hex t)
+      | none => pure "outside"
+  res.getD "bad-ser"
+
+/-- `load <env> <ntable> (<hexk> <hexv>)* <ndecls> decl* <hex source> <nops> op*`: the whole pipeline from source text -/
+def handleLoad (toks : List String) : String :=
+  let res : Option String := do
+    let ((wd, paths), r) ← pEnv toks
+    let (nt, r) ← pNat r
+    let (table, r) ← pMany (fun ts => do let (k, r) ← pHex ts; let (v, r) ← pHex r; pure ((k, v), r)) nt r
+    let (nd, r) ← pNat r
+    let (decls, r) ← pMany pDecl nd r
+    let (src, r) ← pHex r
+    let (no, r) ← pNat r
+    let (ops, _) ← pMany pOp no r
+    let lib := fun (k : String) => decls.find? (·.name == k)
+    let p0 : Program := { cmds := [], workingDir := wd, exists_ := fun q => paths.contains q }
+    match loadSource table lib p0 src with
+    | .error e => pure ("load " ++ showPErr e)
+    | .ok p =>
+      let (st, outs) := ops.foldl (fun (acc : St String × List String) op =>
+        let (st, outs) := acc
+        match op with
+        | .run =>
+            let (st', e) := run tokSem p st
+            (st', outs ++ [match e with | some e => showPErr e | none => "ok"])
+        | .result n =>
+            let (st', e) := runCmd tokSem p (p.cmds.length + 1) st n
+            (st', outs ++ [match e with | some e => showPErr e | none => "ok"])) (({ memo := [], log := [] } : St String), [])
+      -- the loaded program: result names, command names, arguments with raw values and lines
+      let prog := " ".intercalate (p.cmds.map fun c =>
+        "cmd(" ++ hex c.resultName ++ "," ++ hex c.decl.name ++ "," ++ showOptNat c.line ++ ",[" ++
+          ",".intercalate (c.args.map fun a => hex a.name ++ ":" ++ showOptNat a.line ++ ":" ++ showRaw a.value) ++ "])")
+      pure ("load ok ; " ++ " ".intercalate outs ++ " ; " ++ " ".intercalate (st.log.map showEv) ++ " ; " ++
+            " ".intercalate (st.memo.map fun (k, v) => hex k ++ "=" ++ hex v) ++ " ; " ++ prog)
+  res.getD "bad-load"
+
 def handle (line : String) : String :=
   match (line.trimAscii.toString.splitOn " ").filter (· != "") with
   | "exec" :: rest => handleExec rest
   | "alias" :: rest => handleAlias rest
   | "clean" :: rest => handleClean rest
   | "prog" :: rest => handleProg rest
+  | "parse" :: rest => handleParse rest
+  | "ser" :: rest => handleSer rest
+  | "load" :: rest => handleLoad rest
   | "ping" :: _ => "pong"
   | _ => "bad-op"
 
